@@ -58,6 +58,7 @@ def cases(tier):
             if len(spec[a]) == len(spec[b]): cs.append(('order', a, b))
     cs.append(('scan',))
     cs += client_cases()
+    cs += [('client-unfold', a, b) for a, b in UNFOLD_HISTORIES] + [('client-unfold', b, a) for a, b in UNFOLD_HISTORIES]
     return cs
 
 # ------------------------------------------------------------------ clients: the cached constructor chain of Sid()
@@ -99,6 +100,28 @@ def run_client(it, st, T1, T2, s_, order):
               info={'Sid(string)': repr(tv(a)), 'Sid(sid-object)': repr(tv(b)), 'keyword forms': repr((tv(a2), tv(b2))), 'fresh answers': repr(((T1, s_), (T2, s_)))})
     return 'ok'
 
+# ------------------------------------------------------------------ clients: unfold_search and the cached functions below it (simple_typing, sid_to_dicts, ...)
+# A cached function hands out the SAME list / dict object on every hit: a caller that extends or edits it changes later answers.  Client obligation: in a
+# two-call history of the real unfold_search the second answer is the answer of a fresh process (computed by C07's denotation oracle on the concrete string).
+UNFOLD_HISTORIES = [('hamlet/s,a', 'hamlet/a'), ('hamlet/a/char/hamlet/model/v001/w/maya', 'hamlet/a/char/hamlet/model/v001/w/ma'), ('hamlet/a,s/*', 'hamlet/a/*'),
+                    ('hamlet/a/char/hamlet/model/v001/w/movie', 'hamlet/a/char/hamlet/model/v001/w/avi'), ('hamlet/s/sq010,sq020', 'hamlet/s/sq010'), ('hamlet/a/**', 'hamlet/a/*')]
+def run_client_unfold(it, st, first, second):
+    from .c07 import py_den
+    tools = it.module('spil.sid.read.tools'); name = 'C13:unfold_search[two calls]'
+    st.inputs['first'] = first; st.inputs['second'] = second
+    try:
+        r1 = it.call(tools.ns['unfold_search'], [first], {}); u1 = sorted(it.getattr(x, 'uri') for x in r1)
+        r2 = it.call(tools.ns['unfold_search'], [second], {}); u2 = sorted(it.getattr(x, 'uri') for x in r2)
+        r3 = it.call(tools.ns['unfold_search'], [first], {}); u3 = sorted(it.getattr(x, 'uri') for x in r3)
+    except Raised as e:
+        st.oblige(f'{name}:raises-nothing', False, ('C13',), info={'exception': V.exc_name(e)}); st.observed = {}; return 'ok'
+    st.observed = {}
+    u1, u2, u3 = [[simp(st.norm(x)) if isinstance(x, SStr) else x for x in u] for u in (u1, u2, u3)]
+    w1, w2 = py_den(first), py_den(second)
+    st.oblige(f'{name}:each-answer-is-the-answer-of-a-fresh-process', u1 == w1 and u2 == w2 and u3 == w1, ('C13', 'C07'),
+              info={'first': first, 'second': second, 'answers': repr((u1, u2, u3))[:400], 'fresh': repr((w1, w2))[:300]})
+    return 'ok'
+
 class Fun:
     """uninterpreted deterministic function of (args, kwargs): memo table, fresh result per distinct argument tuple"""
     def __init__(self, st): self.table = []; self.st = st
@@ -115,6 +138,7 @@ class Fun:
 
 def run(it, st, case):
     if case[0] == 'client': return run_client(it, st, *case[1:])
+    if case[0] == 'client-unfold': return run_client_unfold(it, st, case[1], case[2])
     if case[0] == 'calls': return run_calls(it, st, case)
     if case[0] == 'order': return run_order(it, st, case[1], case[2])
     if case[0] == 'scan': return run_scan(it, st)
@@ -247,6 +271,18 @@ def replay(case, ob, inputs):
         ok = out == json.dumps([T1, T2])
         return {'confirmed': not ok, 'call': f"history ({order}): Sid({s_!r}) and Sid(Sid({T2 + ':' + s_!r})) in one fresh process", 'observed': out[:300], 'expected': json.dumps([T1, T2]),
                 'reproducer': prog}
+    if case is not None and case[0] == 'client-unfold':
+        import subprocess, sys, json
+        from .c07 import py_den
+        _, first, second = case
+        prog = ("import io,contextlib,json\n"
+                "with contextlib.redirect_stdout(io.StringIO()):\n    import spil\n    from spil.sid.read.tools import unfold_search\n"
+                f"a = sorted(x.uri for x in unfold_search({first!r})); b = sorted(x.uri for x in unfold_search({second!r})); c = sorted(x.uri for x in unfold_search({first!r}))\n"
+                "print(json.dumps([a, b, c]))\n")
+        p = subprocess.run([sys.executable, '-c', prog], capture_output=True, text=True, cwd=W_REPO())
+        out = p.stdout.strip().split('\n')[-1] if p.stdout.strip() else p.stderr[-300:]
+        want = json.dumps([py_den(first), py_den(second), py_den(first)])
+        return {'confirmed': out != want, 'call': f'unfold_search({first!r}); unfold_search({second!r}); unfold_search({first!r}) in one fresh process', 'observed': out[:400], 'expected': want[:400], 'reproducer': prog}
     if case is None or case[0] == 'scan':
         return {'confirmed': False, 'call': 'scan of cache-decorated functions and of the finder / getter classes', 'observed': repr(ob.get('info')), 'expected': 'only functions that do not read changing data are cached'}
     if case[0] == 'order':
